@@ -1024,6 +1024,53 @@ def rule_builder_prov(facts):
     return r
 
 
+# ====================================================================== ERR-PROV (label / merge bookkeeping of the error types)
+
+def err_prov_bodies(facts):
+    out = []
+    for b in facts.bodies:
+        if b["kind"] == "Closure":
+            continue
+        tr = b.get("impl_trait") or b.get("in_trait")
+        if tr in ("label::LabelError", "error::Error") and b["name"] in ("label_with", "in_context", "merge_expected_found", "merge"):
+            out.append(b)
+    return out
+
+
+def rule_err_prov(facts):
+    """How a failure is *described*: label_with replaces the expected set by the label, in_context pushes a (label, span)
+    pair once, merge_expected_found adds the new expectation unless present and keeps the first `found`, merge delegates to
+    flat_merge -- exactly the reviewed calls on the reviewed operands (spec/builder_table.py ERR_METHODS)."""
+    import builder_table as BT
+    r = RuleResult("ERR-PROV")
+    comp = {}
+    for b in err_prov_bodies(facts):
+        comp[b["uname"]] = call_prov_of(facts, b)
+    n = 0
+    for q, got in sorted(comp.items()):
+        want = BT.ERR_METHODS.get(q)
+        if want is None:
+            continue          # a new error type / method: not reviewed, not judged
+        n += 1
+        ok = sorted(want) == got
+        r.ob(ok)
+        if not ok:
+            b = facts.by_uname[q] if hasattr(facts, "by_uname") and q in facts.by_uname else None
+            bb = [x for x in facts.bodies if x["uname"] == q][0]
+            r.violations.append(V("ERR-PROV", q, "label / merge bookkeeping",
+                                  "%s must perform exactly the reviewed operations on the reviewed operands: computed %s ; expected %s"
+                                  % (q, [x for x in got if x not in want], [x for x in want if x not in got]), *loc(bb)))
+    for q in BT.ERR_METHODS:
+        if q not in comp:
+            r.errors.append("anchor %s: no such body" % q)
+    r.explanation = ("the %d label_with / in_context / merge_expected_found / merge bodies of the error types (and the LabelError trait "
+                     "defaults) perform exactly the reviewed calls on the reviewed operands" % n)
+    r.nontrivial = n
+    r.samples = [{k: v} for k, v in list(comp.items())[:2]]
+    r.require_floor(n, facts, "ERR-PROV.bodies", "error bookkeeping bodies compared")
+    return r
+
+
 # ====================================================================== CHAR-PROV (text::Char method bodies)
 
 def rule_char_prov(facts):
